@@ -87,11 +87,11 @@ Proof.
     destruct (nmem i E) eqn:Hmem; [apply nmem_In in Hmem; contradiction |].
     unfold lookup at 1. cbn [find]. rewrite Hm. reflexivity.
   - assert (He : matches e k = false) by (apply (Hbefore 0%nat e); [lia | reflexivity]).
-    assert (Hhead : lookup (if nmem i E then [] else [e]) k = None).
-    { destruct (nmem i E); unfold lookup; simpl; [reflexivity | rewrite He; reflexivity]. }
-    rewrite Hhead. apply (IH (S i) E k p' x); try assumption.
-    + replace (S i + p')%nat with (i + S p')%nat by lia. exact Hn.
-    + intros q y Hq Hy. apply (Hbefore (S q) y); [lia | exact Hy].
+    assert (Hgoal : lookup (keep r (S i) E) k = Some x).
+    { apply (IH (S i) E k p' x); try assumption.
+      + replace (S i + p')%nat with (i + S p')%nat by lia. exact Hn.
+      + intros q y Hq Hy. apply (Hbefore (S q) y); [lia | exact Hy]. }
+    destruct (nmem i E); unfold lookup at 1; cbn [find]; [exact Hgoal | rewrite He; exact Hgoal].
 Qed.
 
 Lemma apply_table_split : forall t i ins E new,
@@ -261,4 +261,368 @@ Proof.
     + intros e [<- | He]; [| apply H2; exact He].
       apply H3. apply alias_step_collects. exact Hinv.
     + intros e He. apply H3. apply alias_step_keeps_collected. exact He.
+Qed.
+
+(* ------------------------------------------------------------------------------------------------ *)
+(** * The invariant of the ordered-covering loop *)
+
+Definition gens_of (T : table) : list Z := map gen_of T.
+
+(* O is the (sorted) original table, T the current one, A the aliases dictionary:
+   T is sorted by generality, has no key bit outside a mask, and every key matched by O is
+   first-matched in T by an entry that routes like O's and one of whose aliases matches the key. *)
+Record Inv (O T : table) (A : aliases) : Prop := {
+  inv_sorted : sortedz (gens_of T);
+  inv_wf : forall x, In x T -> wfb (km_of x);
+  inv_route : forall k e, lookup O k = Some e ->
+      exists t, lookup T k = Some t /\ routes_like e t
+                /\ exists c, In c (al A t) /\ km_matches c k = true }.
+
+Definition idx_ok (T : table) (E : list nat) : Prop :=
+  NoDup E /\ forall i, In i E -> (i < length T)%nat.
+
+Definition same_route (T : table) (E : list nat) : Prop :=
+  forall a b, In a (members T E) -> In b (members T E) -> e_route a = e_route b.
+
+(* up-check condition: no member is hidden behind an entry between it and the insertion point *)
+Definition UP (T : table) (E : list nat) (ins : nat) : Prop :=
+  forall i j a b, In i E -> (i < j)%nat -> (j < ins)%nat ->
+                  nth_error T i = Some a -> nth_error T j = Some b -> intersects a b = false.
+
+(* down-check condition: the merged key-mask meets no alias of any entry at or below the insertion
+   point *)
+Definition DOWN (T : table) (A : aliases) (mkm : km) (ins : nat) : Prop :=
+  forall x c, In x (skipn ins T) -> In c (al A x) ->
+              intersect (fst mkm) (snd mkm) (fst c) (snd c) = false.
+
+Lemma nth_error_firstn_some : forall {X} (l : list X) n q x,
+  nth_error (firstn n l) q = Some x -> (q < n)%nat /\ nth_error l q = Some x.
+Proof.
+  intros X l. induction l as [| y l IH]; intros n q x H.
+  - rewrite firstn_nil in H. destruct q; discriminate.
+  - destruct n as [| n']; [destruct q; discriminate |]. destruct q as [| q']; simpl in H.
+    + split; [lia | exact H].
+    + destruct (IH n' q' x H) as [H1 H2]. split; [lia | exact H2].
+Qed.
+
+Lemma nth_error_firstn_lt : forall {X} (l : list X) n q,
+  (q < n)%nat -> nth_error (firstn n l) q = nth_error l q.
+Proof.
+  intros X l. induction l as [| y l IH]; intros n q H.
+  - rewrite firstn_nil. reflexivity.
+  - destruct n as [| n']; [lia |]. destruct q as [| q']; simpl; [reflexivity | apply IH; lia].
+Qed.
+
+Lemma nth_error_skipn_add : forall {X} (l : list X) n q,
+  nth_error (skipn n l) q = nth_error l (n + q).
+Proof.
+  intros X l. induction l as [| y l IH]; intros n q.
+  - rewrite skipn_nil. destruct q, n; reflexivity.
+  - destruct n as [| n']; simpl; [reflexivity | apply IH].
+Qed.
+
+Lemma intersects_false_nomatch : forall a b k,
+  intersects a b = false -> matches a k = true -> matches b k = false.
+Proof.
+  intros a b k Hi Hm. unfold intersects in Hi. unfold matches, km_of in *.
+  apply (intersect_false_disjoint _ _ _ _ k Hi Hm).
+Qed.
+
+Lemma matches_both_intersect : forall ck cm dk dm k,
+  km_matches (ck, cm) k = true -> km_matches (dk, dm) k = true -> intersect ck cm dk dm = true.
+Proof.
+  intros ck cm dk dm k H1 H2. destruct (intersect ck cm dk dm) eqn:Hi; [reflexivity |].
+  rewrite (intersect_false_disjoint ck cm dk dm k Hi H1) in H2. discriminate.
+Qed.
+
+(* the heart: routing of every original key is preserved by applying a merge that satisfies UP and
+   DOWN (three cases on where the key's first match lies) *)
+Lemma preserve_route : forall O T A E first A',
+  Inv O T A ->
+  (forall i, In i E -> (i < length T)%nat) ->
+  same_route T E ->
+  hd_error (members T E) = Some first ->
+  let M := mk_merge T (gens_of T) E in
+  let mkm := (m_key M, m_mask M) in
+  UP T E (m_ins M) -> DOWN T A mkm (m_ins M) ->
+  (alias_get mkm A' = None
+   \/ exists ours, alias_get mkm A' = Some ours /\ forall e, In e (members T E) -> incl (al A e) ours) ->
+  (forall kk, km_eqb kk mkm = false -> alias_get kk A' = None \/ alias_get kk A' = alias_get kk A) ->
+  let n := mkEntry (e_route first) (m_key M) (m_mask M) (m_sources M) in
+  forall k e, lookup O k = Some e ->
+    exists t, lookup (apply_table T 0 (m_ins M) E n) k = Some t /\ routes_like e t
+              /\ exists c, In c (al A' t) /\ km_matches c k = true.
+Proof.
+  intros O T A E first A' HInv Hidx Hroute Hfirst M mkm HUP HDOWN HAn HAo n k e Hlk.
+  destruct (mk_merge_fields T (gens_of T) E) as [_ [Hkm [_ [_ [Hins Hsrc]]]]].
+  fold M in Hkm, Hins, Hsrc. fold mkm in Hkm.
+  assert (Hne : members T E <> []) by (intro H0; rewrite H0 in Hfirst; discriminate).
+  assert (Hfirst_in : In first (members T E)).
+  { destruct (members T E) as [| f r]; [discriminate |]. injection Hfirst as <-. left. reflexivity. }
+  assert (Hspec : ins_spec (gens_of T) (get_generality (m_key M) (m_mask M)) (m_ins M)).
+  { rewrite Hins. apply insertion_index_spec. apply (inv_sorted _ _ _ HInv). }
+  destruct Hspec as [Hile [Hlt Hge]].
+  unfold gens_of in Hile, Hlt. rewrite map_length in Hile.
+  rewrite apply_table_split by (simpl; lia). rewrite Nat.sub_0_r.
+  set (idx := m_ins M) in *.
+  set (L := keep (firstn idx T) 0 E). set (R := keep (skipn idx T) idx E).
+  destruct (inv_route _ _ _ HInv k e Hlk) as [t [HlT [Hrl [c [Hc Hck]]]]].
+  destruct (lookup_pos T k t HlT) as [p [Hp [Hmt Hbefore]]].
+  (* every member is matched-through by the merged key-mask *)
+  assert (Hcover : forall x, In x (members T E) -> matches x k = true -> km_matches mkm k = true).
+  { intros x Hx Hmx. rewrite Hkm. apply (merge_km_covers _ x k Hx); [| exact Hmx].
+    apply (inv_wf _ _ _ HInv). apply In_members in Hx. destruct Hx as [i [_ Hi]].
+    apply (nth_error_In _ _ Hi). }
+  (* an entry strictly before position idx has generality below the merge's; so it is not mkm *)
+  assert (Hgenlt : forall q x, (q < idx)%nat -> nth_error T q = Some x -> km_of x <> mkm).
+  { intros q x Hq Hx Heq.
+    assert (Hin : In (gen_of x) (firstn idx (map gen_of T))).
+    { rewrite firstn_map. apply in_map. apply (nth_error_In _ q).
+      rewrite nth_error_firstn_lt by exact Hq. exact Hx. }
+    rewrite Forall_forall in Hlt. specialize (Hlt _ Hin).
+    unfold gen_of in Hlt. unfold km_of in Heq. unfold mkm in Heq. injection Heq as Hk1 Hk2.
+    rewrite Hk1, Hk2 in Hlt. lia. }
+  (* aliases of an entry kept by the merge still cover k *)
+  assert (Hkeepal : forall x, matches x k = true -> km_of x <> mkm ->
+             (exists c', In c' (al A x) /\ km_matches c' k = true) ->
+             exists c', In c' (al A' x) /\ km_matches c' k = true).
+  { intros x Hmx Hnk [c' [Hc' Hck']].
+    assert (Hneq : km_eqb (km_of x) mkm = false).
+    { destruct (km_eqb (km_of x) mkm) eqn:Hq; [apply km_eqb_eq in Hq; contradiction | reflexivity]. }
+    unfold al in *. destruct (HAo (km_of x) Hneq) as [Hnone | Hsame].
+    - rewrite Hnone. exists (km_of x). split; [left; reflexivity | exact Hmx].
+    - rewrite Hsame. exists c'. split; assumption. }
+  destruct (in_dec Nat.eq_dec p E) as [HpE | HpE].
+  - (* Case A: the first match is a member of the merge *)
+    assert (Htm : In t (members T E)) by (apply In_members; exists p; split; assumption).
+    assert (Hnm : km_matches mkm k = true) by (apply (Hcover t Htm Hmt)).
+    destruct (le_lt_dec idx p) as [Hge_p | Hlt_p].
+    + (* a member at or below the insertion point contradicts DOWN *)
+      exfalso.
+      assert (Hin : In t (skipn idx T)).
+      { apply (nth_error_In _ (p - idx)). rewrite nth_error_skipn_add.
+        replace (idx + (p - idx))%nat with p by lia. exact Hp. }
+      specialize (HDOWN t c Hin Hc). destruct c as [ck cm]. unfold mkm in *. simpl in HDOWN.
+      rewrite (matches_both_intersect _ _ _ _ k Hnm Hck) in HDOWN. discriminate.
+    + assert (HL : lookup L k = None).
+      { apply lookup_none_of. intros x Hx. apply In_keep in Hx. destruct Hx as [q [Hq HqE]].
+        apply nth_error_firstn_some in Hq. destruct Hq as [Hqi Hq]. simpl in HqE.
+        destruct (lt_eq_lt_dec q p) as [[Hlt' | Heq] | Hgt].
+        - apply (Hbefore q x Hlt' Hq).
+        - subst q. contradiction.
+        - apply (intersects_false_nomatch t x k); [| exact Hmt]. apply (HUP p q t x HpE Hgt Hqi Hp Hq). }
+      exists n. rewrite lookup_app, HL. cbn [app]. unfold lookup. cbn [find].
+      assert (Hn_matches : matches n k = true) by exact Hnm. rewrite Hn_matches.
+      split; [reflexivity | split].
+      * destruct Hrl as [Hr Hs]. split.
+        -- simpl. rewrite <- Hr. apply (Hroute first t Hfirst_in Htm).
+        -- simpl. rewrite Hsrc. eapply subset_trans; [exact Hs |]. apply merge_sources_subset. exact Htm.
+      * unfold al. change (km_of n) with mkm. destruct HAn as [Hnone | [ours [Hsome Hall]]].
+        -- rewrite Hnone. exists mkm. split; [left; reflexivity | exact Hnm].
+        -- rewrite Hsome. exists c. split; [apply (Hall t Htm); exact Hc | exact Hck].
+  - destruct (le_lt_dec idx p) as [Hge_p | Hlt_p].
+    + (* Case C: the first match is kept and lies at or below the insertion point *)
+      assert (Hin : In t (skipn idx T)).
+      { apply (nth_error_In _ (p - idx)). rewrite nth_error_skipn_add.
+        replace (idx + (p - idx))%nat with p by lia. exact Hp. }
+      assert (Hn_no : km_matches mkm k = false).
+      { destruct (km_matches mkm k) eqn:Hnm; [| reflexivity]. exfalso.
+        specialize (HDOWN t c Hin Hc). destruct c as [ck cm]. unfold mkm in *. simpl in HDOWN.
+        rewrite (matches_both_intersect _ _ _ _ k Hnm Hck) in HDOWN. discriminate. }
+      assert (HL : lookup L k = None).
+      { apply lookup_none_of. intros x Hx. apply In_keep in Hx. destruct Hx as [q [Hq _]].
+        apply nth_error_firstn_some in Hq. destruct Hq as [Hqi Hq]. apply (Hbefore q x); [lia | exact Hq]. }
+      assert (HR : lookup R k = Some t).
+      { apply (keep_lookup (skipn idx T) idx E k (p - idx) t).
+        - rewrite nth_error_skipn_add. replace (idx + (p - idx))%nat with p by lia. exact Hp.
+        - replace (idx + (p - idx))%nat with p by lia. exact HpE.
+        - exact Hmt.
+        - intros q y Hq Hy. rewrite nth_error_skipn_add in Hy. apply (Hbefore (idx + q)%nat y); [lia | exact Hy]. }
+      exists t. rewrite lookup_app, HL. cbn [app]. unfold lookup at 1. cbn [find].
+      assert (Hn_matches : matches n k = false) by exact Hn_no. rewrite Hn_matches.
+      split; [exact HR | split; [exact Hrl |]].
+      apply Hkeepal; [exact Hmt | | exists c; split; assumption].
+      intro Heq. unfold matches in Hmt. rewrite Heq in Hmt. congruence.
+    + (* Case B: the first match is kept and lies above the insertion point *)
+      assert (HL : lookup L k = Some t).
+      { apply (keep_lookup (firstn idx T) 0 E k p t).
+        - rewrite nth_error_firstn_lt by exact Hlt_p. exact Hp.
+        - exact HpE.
+        - exact Hmt.
+        - intros q y Hq Hy. apply nth_error_firstn_some in Hy. destruct Hy as [_ Hy]. apply (Hbefore q y Hq Hy). }
+      exists t. rewrite lookup_app, HL.
+      split; [reflexivity | split; [exact Hrl |]].
+      apply Hkeepal; [exact Hmt | apply (Hgenlt p t Hlt_p Hp) | exists c; split; assumption].
+Qed.
+
+(* ------------------------------------------------------------------------------------------------ *)
+(** * _Merge.apply preserves the invariant and shortens the table *)
+
+Lemma In_firstn : forall {X} n (l : list X) x, In x (firstn n l) -> In x l.
+Proof. intros X n l x H. rewrite <- (firstn_skipn n l). apply in_or_app. left. exact H. Qed.
+
+Lemma In_skipn : forall {X} n (l : list X) x, In x (skipn n l) -> In x l.
+Proof. intros X n l x H. rewrite <- (firstn_skipn n l). apply in_or_app. right. exact H. Qed.
+
+Lemma sortedz_app_intro : forall a b,
+  sortedz a -> sortedz b -> (forall x y, In x a -> In y b -> x <= y) -> sortedz (a ++ b).
+Proof.
+  induction a as [| x a IH]; intros b Ha Hb Hab; simpl; [exact Hb |].
+  destruct Ha as [Hx Ha]. split.
+  - intros y Hy. apply in_app_or in Hy. destruct Hy as [Hy | Hy]; [apply Hx; exact Hy |].
+    apply Hab; [left; reflexivity | exact Hy].
+  - apply IH; [exact Ha | exact Hb |]. intros x' y Hx' Hy. apply Hab; [right; exact Hx' | exact Hy].
+Qed.
+
+Lemma sortedz_keep : forall t i E, sortedz (map gen_of t) -> sortedz (map gen_of (keep t i E)).
+Proof.
+  induction t as [| e r IH]; intros i E Hs; simpl; [exact I |].
+  simpl in Hs. destruct Hs as [He Hr]. rewrite map_app. apply sortedz_app_intro.
+  - destruct (nmem i E); simpl; [exact I | split; [intros y [] | exact I]].
+  - apply IH. exact Hr.
+  - intros x y Hx Hy. destruct (nmem i E); simpl in Hx; [destruct Hx |]. destruct Hx as [<- | []].
+    apply He. apply in_map_iff in Hy. destruct Hy as [z [<- Hz]]. apply in_map. apply (keep_In _ _ _ _ Hz).
+Qed.
+
+Lemma keep_app : forall a b i E, keep (a ++ b) i E = keep a i E ++ keep b (i + length a) E.
+Proof.
+  induction a as [| x a IH]; intros b i E; simpl.
+  - rewrite Nat.add_0_r. reflexivity.
+  - rewrite IH, <- app_assoc. replace (S i + length a)%nat with (i + S (length a))%nat by lia. reflexivity.
+Qed.
+
+Lemma keep_length_exact : forall t i E,
+  (length (keep t i E) + length (filter (fun j => nmem j E) (seq i (length t))) = length t)%nat.
+Proof.
+  induction t as [| e r IH]; intros i E; simpl; [reflexivity |].
+  rewrite app_length. specialize (IH (S i) E). destruct (nmem i E); simpl; lia.
+Qed.
+
+Lemma filter_seq_length : forall E n,
+  NoDup E -> (forall i, In i E -> (i < n)%nat) ->
+  length (filter (fun j => nmem j E) (seq 0 n)) = length E.
+Proof.
+  intros E n Hnd Hlt. apply Nat.le_antisymm.
+  - apply NoDup_incl_length.
+    + apply NoDup_filter. apply seq_NoDup.
+    + intros j Hj. apply filter_In in Hj. destruct Hj as [_ Hj]. apply nmem_In. exact Hj.
+  - apply NoDup_incl_length; [exact Hnd |].
+    intros j Hj. apply filter_In. split; [apply in_seq; specialize (Hlt j Hj); lia | apply nmem_In; exact Hj].
+Qed.
+
+Lemma apply_table_length : forall T E ins new,
+  idx_ok T E -> (ins <= length T)%nat ->
+  (length (apply_table T 0 ins E new) + length E = length T + 1)%nat.
+Proof.
+  intros T E ins new [Hnd Hlt] Hins.
+  rewrite apply_table_split by (simpl; lia). rewrite Nat.sub_0_r.
+  rewrite !app_length. simpl length.
+  assert (Hk : keep T 0 E = keep (firstn ins T) 0 E ++ keep (skipn ins T) ins E).
+  { rewrite <- (firstn_skipn ins T) at 1. rewrite keep_app. rewrite firstn_length.
+    replace (0 + Nat.min ins (length T))%nat with ins by lia. reflexivity. }
+  pose proof (keep_length_exact T 0 E) as Hl. rewrite Hk, app_length in Hl.
+  rewrite (filter_seq_length E (length T) Hnd Hlt) in Hl. lia.
+Qed.
+
+Lemma alias_inv_init : forall mkm A, alias_inv mkm A (alias_remove mkm A, [], true).
+Proof.
+  intros mkm A. split; [apply alias_get_remove_same | split].
+  - intros kk. destruct (km_eqb kk mkm) eqn:Hc.
+    + apply km_eqb_eq in Hc. subst kk. left. apply alias_get_remove_same.
+    + right. apply alias_get_remove_other. exact Hc.
+  - intros _ kk s Hne Hnone HA. rewrite alias_get_remove_other in Hnone by exact Hne. congruence.
+Qed.
+
+Lemma apply_merge_unfold : forall T A M first rest,
+  members T (m_entries M) = first :: rest ->
+  apply_merge T A M =
+  let mkm := (m_key M, m_mask M) in
+  let new := mkEntry (e_route first) (m_key M) (m_mask M) (m_sources M) in
+  let st := fold_left (alias_step mkm) (members T (m_entries M)) (alias_remove mkm A, [], true) in
+  Ok (apply_table T 0 (m_ins M) (m_entries M) new,
+      if snd st then fst (fst st) ++ [(mkm, snd (fst st))] else fst (fst st)).
+Proof.
+  intros T A M first rest Hm. unfold apply_merge. rewrite Hm. rewrite <- Hm.
+  match goal with |- context [fold_left ?f _ _] => change f with (alias_step (m_key M, m_mask M)) end.
+  cbv zeta.
+  destruct (fold_left (alias_step (m_key M, m_mask M)) (members T (m_entries M))
+                      (alias_remove (m_key M, m_mask M) A, [], true)) as [[a1 ours] live].
+  reflexivity.
+Qed.
+
+Theorem apply_merge_preserves : forall O T A E,
+  Inv O T A -> idx_ok T E -> (2 <= length E)%nat -> same_route T E ->
+  let M := mk_merge T (gens_of T) E in
+  UP T E (m_ins M) -> DOWN T A (m_key M, m_mask M) (m_ins M) ->
+  exists T' A', apply_merge T A M = Ok (T', A') /\ Inv O T' A'
+                /\ (length T' + length E = length T + 1)%nat.
+Proof.
+  intros O T A E HInv Hidx Hlen Hroute M HUP HDOWN.
+  destruct (mk_merge_fields T (gens_of T) E) as [Hent [Hkm [_ [_ [Hins Hsrc]]]]].
+  fold M in Hent, Hkm, Hins, Hsrc.
+  (* the members exist *)
+  assert (Hmem_len : length (members T E) = length E).
+  { destruct Hidx as [_ Hlt]. clear - Hlt. induction E as [| i E IH]; [reflexivity |].
+    unfold members in *. simpl. destruct (nth_error T i) as [x |] eqn:Hx.
+    - simpl. rewrite IH; [reflexivity |]. intros j Hj. apply Hlt. right. exact Hj.
+    - apply nth_error_None in Hx. specialize (Hlt i (or_introl eq_refl)). lia. }
+  destruct (members T E) as [| first rest] eqn:Hmem; [simpl in Hmem_len; lia |].
+  assert (Hspec : ins_spec (gens_of T) (get_generality (m_key M) (m_mask M)) (m_ins M)).
+  { rewrite Hins. apply insertion_index_spec. apply (inv_sorted _ _ _ HInv). }
+  assert (Hile : (m_ins M <= length T)%nat).
+  { destruct Hspec as [H _]. unfold gens_of in H. rewrite map_length in H. exact H. }
+  rewrite (apply_merge_unfold T A M first rest) by (rewrite Hent; exact Hmem).
+  cbv zeta. rewrite Hent.
+  set (mkm := (m_key M, m_mask M)) in *.
+  destruct (alias_fold mkm A (members T E) (alias_remove mkm A, [], true) (alias_inv_init mkm A))
+    as [Hfinv [Hcoll _]].
+  destruct (fold_left (alias_step mkm) (members T E) (alias_remove mkm A, [], true)) as [[a1 ours] live] eqn:Hfold.
+  cbn [fst snd].
+  destruct Hfinv as [J1 [J2 _]].
+  set (n := mkEntry (e_route first) (m_key M) (m_mask M) (m_sources M)).
+  set (A' := if live then a1 ++ [(mkm, ours)] else a1).
+  exists (apply_table T 0 (m_ins M) E n), A'.
+  split; [reflexivity | split; [| apply apply_table_length; assumption]].
+  constructor.
+  - (* sorted *)
+    rewrite apply_table_split by (simpl; lia). rewrite Nat.sub_0_r.
+    destruct Hspec as [_ [Hlt Hge]]. unfold gens_of in *.
+    pose proof (inv_sorted _ _ _ HInv) as Hs. unfold gens_of in Hs.
+    rewrite <- (firstn_skipn (m_ins M) T) in Hs. rewrite map_app in Hs.
+    apply sortedz_app in Hs. destruct Hs as [HsL [HsR _]].
+    rewrite firstn_map in Hlt. rewrite skipn_map in Hge.
+    rewrite !map_app. apply sortedz_app_intro.
+    + apply sortedz_keep. exact HsL.
+    + apply (sortedz_app_intro [_]).
+      * simpl. split; [intros y [] | exact I].
+      * apply sortedz_keep. exact HsR.
+      * intros x y [<- | []] Hy. simpl. apply in_map_iff in Hy. destruct Hy as [z [<- Hz]].
+        apply keep_In in Hz. rewrite Forall_forall in Hge. apply Hge. apply in_map. exact Hz.
+    + intros x y Hx Hy. apply in_map_iff in Hx. destruct Hx as [z [<- Hz]]. apply keep_In in Hz.
+      rewrite Forall_forall in Hlt. specialize (Hlt (gen_of z) (in_map _ _ _ Hz)).
+      apply in_app_or in Hy. destruct Hy as [[<- | []] | Hy].
+      * simpl. unfold gen_of at 2. simpl. lia.
+      * apply in_map_iff in Hy. destruct Hy as [w [<- Hw]]. apply keep_In in Hw.
+        rewrite Forall_forall in Hge. specialize (Hge (gen_of w) (in_map _ _ _ Hw)). lia.
+  - (* well-formed *)
+    intros x Hx. rewrite apply_table_split in Hx by (simpl; lia). rewrite Nat.sub_0_r in Hx.
+    apply in_app_or in Hx. destruct Hx as [Hx | Hx].
+    + apply keep_In in Hx. apply (inv_wf _ _ _ HInv). apply (In_firstn _ _ _ Hx).
+    + apply in_app_or in Hx. destruct Hx as [[<- | []] | Hx].
+      * change (km_of n) with mkm. rewrite Hkm. apply merge_km_wfb. discriminate.
+      * apply keep_In in Hx. apply (inv_wf _ _ _ HInv). apply (In_skipn _ _ _ Hx).
+  - (* routing *)
+    intros k e Hlk. destruct Hidx as [Hnd Hlt].
+    apply (preserve_route O T A E first A' HInv Hlt Hroute); try assumption.
+    + rewrite Hmem. reflexivity.
+    + fold M. fold mkm. unfold A'. destruct live.
+      * right. exists ours. split.
+        -- rewrite alias_get_app, J1. simpl. rewrite km_eqb_refl. reflexivity.
+        -- intros e' He'. specialize (Hcoll e' He'). simpl in Hcoll. apply Hcoll. reflexivity.
+      * left. exact J1.
+    + fold M. fold mkm. intros kk Hne. unfold A'. destruct live.
+      * rewrite alias_get_app. destruct (J2 kk) as [Hnone | Hsame].
+        -- left. rewrite Hnone. simpl. rewrite Hne. reflexivity.
+        -- destruct (alias_get kk a1) eqn:Hg; [right; exact Hsame |]. left. simpl. rewrite Hne. reflexivity.
+      * apply J2.
 Qed.
